@@ -1,6 +1,6 @@
 (* C07 - load balancing: one branch per frame, ordered duplicate-free rejoin. *)
 From Coq Require Import ZArith List Bool Lia.
-From OF Require Import Base.Str Proto.Wire Proto.Receiver Proto.Receiver_Safety Proto.Receiver_Order
+From OF Require Import Base.Str Proto.Wire Proto.Receiver Proto.Receiver_Safety Proto.Receiver_Order Proto.Receiver_Balanced
                        Proto.Sender Proto.Sender_Safety.
 Import ListNotations.
 Open Scope Z_scope.
@@ -38,6 +38,23 @@ Theorem C07_rejoin_increasing :
       (rets (snd (rrun Repaired (init_receiver cid true ll cs) its))).
 Proof. intros cid ll cs its. exact (receiver_strictly_increasing cid true ll cs its). Qed.
 Print Assumptions C07_rejoin_increasing.
+
+(* Every set a balanced-sources consumer returns comes from ONE source and carries ONE id (the id it
+   is returned under) - for every list of deliveries, poll answers, calls and clock values.  Hypotheses:
+   the sources are synchronized (the constructor rejects ephemeral balanced sources) and no delivered
+   message uses the empty string as a topic name. *)
+Theorem C07_rejoin_safe :
+  forall cid ll cs its,
+    Forall (fun c => sc_eph c = 0) cs -> Forall wf_item its ->
+    forall data id bal, In (ORet data id bal) (snd (rrun Repaired (init_receiver cid true ll cs) its)) ->
+      (forall t sm, In (t, sm) data -> st_mid sm = id) /\
+      (forall t sm t' sm', In (t, sm) data -> In (t', sm') data -> st_src sm = st_src sm').
+Proof.
+  intros cid ll cs its Hs Hw data id bal Hin.
+  pose proof (receiver_balanced_one_source cid ll cs its Hs Hw) as H. rewrite Forall_forall in H.
+  exact (H _ Hin).
+Qed.
+Print Assumptions C07_rejoin_safe.
 
 (* the first hop after a split never prefetches: a set whose balance index is 1 is returned without
    a request being pushed by [finish] *)
